@@ -4,6 +4,12 @@ EXTENDS YuniKorn
 MCLeaves == {"root.a", "root.p.x"}
 MCQMax == [q \in MCLeaves |-> IF q = "root.a" THEN 3 ELSE 0]
 MCAppLeaf == [a \in Apps |-> IF a = "app0" THEN "root.a" ELSE "root.p.x"]
+MCGuar == [q \in MCLeaves |-> 0]
+\* the preemption layout: root.p.x (guaranteed 2) asks, root.p.z (no guarantee) holds the victims
+MCLeavesPre == {"root.p.x", "root.p.z"}
+MCQMaxPre == [q \in MCLeavesPre |-> 0]
+MCGuarPre == [q \in MCLeavesPre |-> IF q = "root.p.x" THEN 2 ELSE 0]
+MCAppLeafPre == [a \in Apps |-> IF a = "app0" THEN "root.p.z" ELSE "root.p.x"]
 \* the state space is bounded by the length of the environment history that is recorded
 Bound == Len(hist) < MaxHist
 =============================================================================
